@@ -75,7 +75,15 @@ def run_property(prop, tier, seed, nproc=None):
     jobs = mod.jobs(tier, seed)
     known_path = os.path.join(ROOT, "known_findings.json")
     hard = getattr(mod, "JOB_TIMEOUT", {"quick": 300, "thorough": 1800})[tier]
-    nproc = nproc or int(os.environ.get("VERIF_NPROC", "0")) or min(16, os.cpu_count() or 4)
+    nproc = nproc or int(os.environ.get("VERIF_NPROC", "0"))
+    if not nproc:
+        nproc = min(16, os.cpu_count() or 4)
+        try:    # shared machine: do not pile 16 more workers onto an overloaded box
+            load = os.getloadavg()[0]
+            if load > 2 * nproc:
+                nproc = max(4, nproc // 4)
+        except OSError:
+            pass
     args = [(prop, j, known_path, hard) for j in jobs]
     results = []
     if nproc == 1 or len(jobs) == 1:
